@@ -632,7 +632,7 @@ def custom_native(sp, unit, cfgname, wd, base, res):
     cpp = base + '.cpp'
     open(cpp, 'w').write(sp.sec('native_driver'))
     exe = os.path.join(wd, '%s.%s.replay' % (sp.name, cfgname))
-    rc, out, cmd = native_build_run(cpp, exe)
+    rc, out, cmd = native_build_run(cpp, exe, full=True)
     extra = {'native_cmd': cmd, 'native_output': out, 'native_rc': rc}
     if rc == 1 or 'AddressSanitizer' in (out or ''):
         return True, 'native driver reproduces on the real class: ' + (out or '').strip().split('\n')[-1][:200], extra
@@ -653,7 +653,7 @@ def rerun(path):
     wd = os.path.join(VERIF, '.work', 'replay_%d' % os.getpid())
     os.makedirs(wd, exist_ok=True)
     try:
-        rc, out, cmd = native_build_run(cpp, os.path.join(wd, 'replay'))
+        rc, out, cmd = native_build_run(cpp, os.path.join(wd, 'replay'), full=('native glue' in open(cpp).read() or 'native replay (used only after' in open(cpp).read()))
         print(cmd)
         print(out)
         return 1 if (rc == 1 or 'AddressSanitizer' in (out or '')) else 0
@@ -700,7 +700,7 @@ def run_bounded_unit(unit, cfgname, workdir, tier='quick', mutate=None):
                 items.append('%s.%d:%s' % (sp.meta.get('cname'), ids[lab], k))
         if items:
             uset = ' --unwindset ' + ','.join(items)
-    cmd = ('cbmc %s %s %s --function bharness --nondet-static --unwind %s' + uset + ' --unwinding-assertions --bounds-check --pointer-check --div-by-zero-check --trace --json-ui -DVERIF_BOUNDED=1 %s') % (
+    cmd = ('cbmc %s %s %s --function bharness --nondet-static --unwind %s' + uset + ' --unwinding-assertions --no-malloc-may-fail --bounds-check --pointer-check --div-by-zero-check --trace --json-ui -DVERIF_BOUNDED=1 %s') % (
         inc, qdefs, cfile, unwind, E.SOLVERS.get(res.backend, ''))
     res.cmds.append(cmd)
     rc, out, err, dt = E.sh(cmd, tmo)
